@@ -4,7 +4,7 @@ import FeatherModel.Model.RemapperSpec
 
 /-!
 # C06 helper lemmas, part 3
-`getD` forms of the class round trip, `dfsAll` versus `dfs`, the automaton of accepted strings.
+`getD` forms of the class round trip, the automaton of accepted strings.
 -/
 
 namespace Remapper
@@ -38,82 +38,6 @@ theorem roundtrip_getD [BEq K] [LawfulBEq K] (pairs : List (K × K)) (c : K)
     cases h2 : lastPair (pairs.map swap) y with
     | none => rw [h2] at key; simpa using key
     | some v => rw [h2] at key; simpa using key
-
-/-! ## `dfsAll` -/
-
-theorem allMapped_spec {r : BTable} {l : List JStr} (h : allMapped r l = true) :
-    ∀ c ∈ l, ∃ cls, AList.lookup c r = some cls := by
-  intro c hc
-  unfold allMapped at h
-  have := List.all_eq_true.mp h c hc
-  cases hl : AList.lookup c r with
-  | none => rw [hl] at this; simp at this
-  | some cls => exact ⟨cls, rfl⟩
-
-theorem allMapped_append {r : BTable} {a b : List JStr} :
-    allMapped r (a ++ b) = (allMapped r a && allMapped r b) := by
-  simp [allMapped, List.all_append]
-
-theorem concatM_dfsAll (r : BTable) (sup : Supers) (n : Nat)
-    (ih : ∀ (o : JStr) (order : List JStr), dfsAll sup n o = some order → allMapped r order = true →
-      dfs r sup n o = some order) :
-    ∀ (ss : List JStr) (l : List JStr), concatM (fun s => dfsAll sup n s) ss = some l → allMapped r l = true →
-      concatM (fun s => dfs r sup n s) ss = some l := by
-  intro ss
-  induction ss with
-  | nil => intro l h _; simpa [concatM] using h
-  | cons s rest ihl =>
-    intro l h hm
-    simp only [concatM] at h ⊢
-    cases hd : dfsAll sup n s with
-    | none => rw [hd] at h; simp at h
-    | some a =>
-      rw [hd] at h
-      simp only at h
-      cases hc : concatM (fun s => dfsAll sup n s) rest with
-      | none => rw [hc] at h; simp at h
-      | some b =>
-        rw [hc] at h
-        simp only [Option.some.injEq] at h
-        subst h
-        rw [allMapped_append, Bool.and_eq_true] at hm
-        rw [ih s a hd hm.1, ihl b hc hm.2]
-
-/-- when every class of the provider's pre-order has a mapping, the search order of the code is that pre-order -/
-theorem dfs_eq_dfsAll (r : BTable) (sup : Supers) :
-    ∀ (fuel : Nat) (o : JStr) (order : List JStr), dfsAll sup fuel o = some order → allMapped r order = true →
-      dfs r sup fuel o = some order := by
-  intro fuel
-  induction fuel with
-  | zero => intro o order h; simp [dfsAll] at h
-  | succ n ih =>
-    intro o order h hm
-    rw [dfsAll] at h
-    rw [dfs]
-    cases hs : AList.lookup o sup with
-    | none =>
-      rw [hs] at h
-      simp only [Option.some.injEq] at h
-      subst h
-      obtain ⟨cls, hcls⟩ := allMapped_spec hm o (by simp)
-      rw [hcls]
-    | some ss =>
-      rw [hs] at h
-      simp only at h
-      cases hc : concatM (fun s => dfsAll sup n s) ss with
-      | none => rw [hc] at h; simp at h
-      | some l =>
-        rw [hc] at h
-        simp only [Option.some.injEq] at h
-        subst h
-        obtain ⟨cls, hcls⟩ := allMapped_spec hm o (by simp)
-        rw [hcls]
-        simp only
-        have hl : allMapped r l = true := by
-          have : allMapped r ([o] ++ l) = true := hm
-          rw [allMapped_append, Bool.and_eq_true] at this
-          exact this.2
-        rw [concatM_dfsAll r sup n ih ss l hc hl]
 
 end Remapper
 
